@@ -4,8 +4,17 @@
 package c17
 
 import (
+	"encoding/json"
+	"fmt"
 	"strings"
+	"sync"
 	"testing"
+	"time"
+
+	"github.com/failsafe-go/failsafe-go"
+	"github.com/failsafe-go/failsafe-go/hedgepolicy"
+	"github.com/failsafe-go/failsafe-go/retrypolicy"
+	"github.com/failsafe-go/failsafe-go/timeout"
 
 	"pgregory.net/rapid"
 
@@ -74,4 +83,95 @@ func TestRegress(t *testing.T) {
 	st := harness.NewStats("TestRegress")
 	defer st.Flush()
 	cfg.Regress(t, st, "../../regress/c17")
+}
+
+// TestAttemptViewStable: what an attempt sees as the last result and error is that of the most recent *completed* attempt,
+// so it cannot change while the attempt is running - in particular not when a Timeout cancels the attempt. Attempts either
+// fail fast or wait for their cancellation; each compares what it saw on entry with what it sees just before returning.
+// The invariant holds on every schedule (if a fast attempt happens to be timed out too, entry and exit views still agree).
+func TestAttemptViewStable(t *testing.T) {
+	const test = "TestAttemptViewStable"
+	st := harness.NewStats(test)
+	defer st.Flush()
+	rapid.Check(t, func(t *rapid.T) {
+		type att struct {
+			Block bool `json:"block"`
+			V     int  `json:"v"`
+			Fail  bool `json:"fail"`
+		}
+		type scen struct {
+			Shape    string `json:"shape"` // retry(timeout) | retry(fallback(timeout)) | retry(timeout(hedge))
+			Attempts []att  `json:"attempts"`
+			Async    bool   `json:"async"`
+		}
+		sc := scen{Shape: rapid.SampledFrom([]string{"retry(timeout)", "retry(timeout)", "retry(timeout(hedge))"}).Draw(t, "shape"), Async: rapid.Bool().Draw(t, "async")}
+		for i, n := 0, rapid.IntRange(2, 5).Draw(t, "attempts"); i < n; i++ {
+			sc.Attempts = append(sc.Attempts, att{Block: rapid.Bool().Draw(t, "block"), V: rapid.IntRange(1, 9).Draw(t, "v"), Fail: true})
+		}
+		type view struct {
+			lv int
+			le error
+		}
+		var mu sync.Mutex
+		var problems []string
+		n := 0
+		blocked := 0
+		fn := func(exec failsafe.Execution[int]) (int, error) {
+			mu.Lock()
+			i := n
+			n++
+			mu.Unlock()
+			in := view{exec.LastResult(), exec.LastError()}
+			a := att{V: 1}
+			if i < len(sc.Attempts) {
+				a = sc.Attempts[i]
+			} else {
+				a.Fail = false
+			}
+			if a.Block {
+				select {
+				case <-exec.Canceled():
+				case <-harness.After(30 * time.Second):
+				}
+				mu.Lock()
+				blocked++
+				mu.Unlock()
+			}
+			out := view{exec.LastResult(), exec.LastError()}
+			// LastError reports the context's error when there is no recorded error and the context is done: only a
+			// recorded error must be stable
+			if out.lv != in.lv || (in.le != nil && out.le != in.le) {
+				mu.Lock()
+				problems = append(problems, fmt.Sprintf("attempt %d saw last=(%d,%v) on entry and (%d,%v) before returning", i+1, in.lv, in.le, out.lv, out.le))
+				mu.Unlock()
+			}
+			if a.Fail {
+				return a.V, compose.EA
+			}
+			return a.V, nil
+		}
+		rp := retrypolicy.Builder[int]().WithMaxRetries(len(sc.Attempts)).Build()
+		to := timeout.With[int](2 * time.Millisecond)
+		pols := []failsafe.Policy[int]{rp, to}
+		if sc.Shape == "retry(timeout(hedge))" {
+			pols = append(pols, hedgepolicy.WithDelay[int](time.Hour))
+		}
+		ex := failsafe.NewExecutor[int](pols...)
+		if sc.Async {
+			ex.GetWithExecutionAsync(fn).Get()
+		} else {
+			ex.GetWithExecution(fn)
+		}
+		mu.Lock()
+		defer mu.Unlock()
+		if len(problems) > 0 {
+			harness.Violation(t, cfg.Prop, test, "attempt-view-changed", sc, "%+v: %s", sc, problems[0])
+		}
+		b, _ := json.Marshal(sc)
+		nt := blocked > 0 && n >= 2
+		st.Case(string(b), nt, "shape="+sc.Shape)
+		if nt {
+			st.Sample(string(b), func() any { return sc })
+		}
+	})
 }
